@@ -98,6 +98,9 @@ func runVal(b *recB, m *mon, seg segSpec) {
 		b.SetAdd("eras", era(v.net.N, ev.Next.Index.Height))
 		b.Distinct("applied", era(v.net.N, ev.Next.Index.Height), len(ev.Block.Transactions) > 0, ev.Block.V2 != nil, fmt.Sprint(ev.Kinds))
 	}
+	if seg.NetIdx%4 == 0 {
+		v.legacySupply()
+	}
 	died := false
 	hostileUCDone := false
 	for done := 0; done < lv.blocks && !died; {
@@ -1186,6 +1189,44 @@ func (v *valmon) directedMuts(cs consensus.State, orig *types.Block) []mut {
 					spend := types.V2Transaction{SiafundInputs: []types.V2SiafundInput{{Parent: types.SiafundElement{ID: tt.SiafundOutputID(id, 0), StateElement: types.StateElement{LeafIndex: types.UnassignedLeafIndex},
 						SiafundOutput: types.SiafundOutput{Value: o0.Value, Address: anyone.Address()}, ClaimStart: cs0.c}, ClaimAddress: dest, SatisfiedPolicy: types.SatisfiedPolicy{Policy: anyone}}},
 						SiafundOutputs: []types.SiafundOutput{{Value: o0.Value, Address: dest}}}
+					blk.V2.Transactions = append(blk.V2.Transactions, spend)
+					return true
+				}})
+			}
+		}
+		if len(t.SiafundOutputs) > 0 {
+			// the same ephemeral siafund output spent with a claimed VALUE far above the siafund count (the claim is
+			// revenue/count*value), alone and as a pair whose values wrap around to the sum of the outputs
+			for _, pair := range []bool{false, true} {
+				pair := pair
+				val := "2^63"
+				if pair {
+					val = "2^63+2^63"
+				}
+				muts = append(muts, mut{op: "ephemeral-siafund-value", field: "v2.appended-spend-of-ephemeral-siafund-output", val: val, directed: true, f: func(blk *types.Block) bool {
+					tt := &blk.V2.Transactions[j]
+					if referencedLater(blk, j) {
+						return false
+					}
+					o0 := tt.SiafundOutputs[0]
+					if pair && o0.Value < 2 {
+						return false
+					}
+					tt.SiafundOutputs[0].Address = anyone.Address()
+					if pair {
+						tt.SiafundOutputs[0].Value = o0.Value - 1
+						tt.SiafundOutputs = append(tt.SiafundOutputs, types.SiafundOutput{Value: 1, Address: anyone.Address()})
+					}
+					v.c.SignV2(cs, tt, nil)
+					id := tt.ID()
+					mk := func(i int) types.V2SiafundInput {
+						return types.V2SiafundInput{Parent: types.SiafundElement{ID: tt.SiafundOutputID(id, i), StateElement: types.StateElement{LeafIndex: types.UnassignedLeafIndex},
+							SiafundOutput: types.SiafundOutput{Value: 1 << 63, Address: anyone.Address()}}, ClaimAddress: dest, SatisfiedPolicy: types.SatisfiedPolicy{Policy: anyone}}
+					}
+					spend := types.V2Transaction{SiafundInputs: []types.V2SiafundInput{mk(0)}, SiafundOutputs: []types.SiafundOutput{{Value: 1 << 63, Address: dest}}}
+					if pair {
+						spend = types.V2Transaction{SiafundInputs: []types.V2SiafundInput{mk(0), mk(len(tt.SiafundOutputs) - 1)}, ArbitraryData: []byte{1}}
+					}
 					blk.V2.Transactions = append(blk.V2.Transactions, spend)
 					return true
 				}})
